@@ -432,6 +432,9 @@ extern crate alloc;
 
 #[macro_use]
 mod util;
+#[cfg(lasso_verif)]
+#[doc(hidden)]
+pub mod verif;
 mod arenas;
 mod interface;
 mod keys;
